@@ -421,7 +421,10 @@ def next_env(rng, env, shock=None):
         f = dec_digits(rng, 0.9, 1.1, 6)
         if shock and t in shock:
             f = shock[t]
-        e["price"][t] = (e["price"][t] * f).normalize() if e["price"][t] * f != 0 else e["price"][t]
+        if t not in e["price"]:
+            e["price"][t] = log_uniform(rng, -4, 5, 6)     # a price missing from the previous (malformed) bar is back
+        else:
+            e["price"][t] = (e["price"][t] * f).normalize() if e["price"][t] * f != 0 else e["price"][t]
     return e
 
 
